@@ -162,6 +162,13 @@ def Graph.wfFrom (base : Nat) : List Module → Bool
 
 def Graph.wf (g : Graph) : Bool := Graph.wfFrom 0 g
 
+/-- What module `k` sees of the modules it requires, computed the way the code does (flatten each
+spec, filter and rename the target's `provide` list, apply the concatenated prefix):
+bound name ↦ (required module, provided name).  Later entries shadow earlier ones. -/
+def visible (g : Graph) (k : Nat) : List (Name × (Nat × Name)) :=
+  ((g.mod k).reqs.map Spec.flatten).flatMap fun r =>
+    (r.importsM ((g.provNames r.target).map fun n => (n, ()))).map fun i => (i.1, (r.target, i.2.1))
+
 /-! ## 4. S — per-module environments -/
 
 inductive Origin where
